@@ -9,7 +9,26 @@ COMMON_NOTE = ("Trusted: Lean 4.33 kernel; axioms propext/Classical.choice/Quot.
                "(real code built from /repo's working tree vs compiled model `kmodel`) and, where stated, by facts "
                "regenerated from the source; the correspondence is testing and is bounded by its generators. ")
 
+CRYPTO_NOTE = ("The theorems are about the RFC specification (Crypto/Spec.lean) for every `Prims` satisfying stated functional laws "
+   "(block ciphers are permutations per key, RC4 is an involution per key, MAC lengths); SHA-1/2, MD4/5, HMAC, AES, DES, RC4, PBKDF2 are parameters, "
+   "instantiated in kmodel by independent Lean implementations validated against FIPS/RFC vectors at start-up. 'Go = RFC for every input' is established by the "
+   "two-direction correspondence run, not by proof. aescts and Go crypto are external. ")
+
 CLAIMED = {
+ "C05": dict(
+   text="Lean theorems over the RFC 3961/3962/8009/4757 specification: decrypt(encrypt(conf,pt)) = pt (des3: plus zero padding) for all six etypes and every length (CBC and ciphertext-stealing round trips by induction over blocks), ciphertext length, different confounders give different ciphertexts, rc4 message type = LE32(alias(usage)); regenerated facts (rc4 message-type bytes for 314 usages, etype parameter table) proved equal to the RFC values by kernel evaluation. The Go code is tied to this spec by interop in both directions over lengths 0..130 x usage set.",
+   note=CRYPTO_NOTE, technique="Lean 4 proof (mode round trips, injectivity) + regenerated fact tables (decide) + two-direction differential interop against kmodel", design="5/C05"),
+ "C06": dict(
+   text="Lean theorems over the RFC decrypt: success implies the tag region equals the MAC (key derived from the presented key and usage) of exactly what is returned; inputs shorter than confounder+tag are rejected; same body with a different tag is never accepted (all flips/truncations/extensions of the tag); accepting a tampered body exhibits an HMAC collision (RFC 8009 and rc4 families); rc4 usage aliases characterised exactly. Tied to Go by exhaustive single-bit flips, all truncations, extensions, swapped blocks, other usages/keys for lengths 0..64.",
+   note=CRYPTO_NOTE + "Body tampering for the SHA-1 families is covered by accept_implies_mac plus the exhaustive flip run; the collision form is proved for the SHA-2 and rc4 families only.",
+   technique="Lean 4 proof (decision logic of decrypt) + exhaustive bit-flip/truncation differential run", design="5/C06"),
+ "C07": dict(
+   text="Lean theorems: verification is true exactly for the RFC checksum (hence no prefix, extension or bit flip), nominal lengths, acceptance for other data implies an HMAC collision; regenerated fact: GetChksumEtype over ids -1000..1000 equals the IANA table. Tied to Go by value comparison for 6 checksum types x lengths 0..200 x usages and mutation of the checksum.",
+   note=CRYPTO_NOTE, technique="Lean 4 proof + regenerated IANA table (decide) + differential checksum values", design="5/C07"),
+ "C08": dict(
+   text="Lean theorems: PA-data hint selection equals the RFC 4120 5.2.7.5 precedence and is order independent (with the unrepaired loop refuted by witness); des3 random-to-key always yields odd parity bytes with the input's top 7 bits and never a weak key; UTF-16LE encoding injective on scalar values; s2kparams are exactly 4 big-endian octets; regenerated key/seed sizes equal the RFC sizes. String-to-key, n-fold (arithmetic definition), DR/DK, KDF-HMAC-SHA2, random-to-key values are compared with Go for the property's whole quantifier.",
+   note=CRYPTO_NOTE + "n-fold: the Lean definition is arithmetic (ones'-complement sum of rotated copies) and is compared with the Go bit loop on every length 1..64 x 6 sizes; their equality is not proved.",
+   technique="Lean 4 proof (finite case analysis, kernel decide over all 256 bytes / 16 weak keys, induction) + differential key values", design="5/C08"),
  "C14": dict(
    text="Lean theorems over a model of keytab.go: Unmarshal reads every file an independent writer (MIT format) renders — holes, with/without 32-bit kvno, v1/v2, both byte orders — to exactly the written entries (reads_spec); Marshal equals that writer (marshal_is_render) hence round trip for both versions (roundtrip); GetEncryptionKey is sound, complete and prefers the newest match (lookup_*). All for unbounded sizes. The model is tied to the Go code by differential runs on rendered, re-marshalled, mutated files and present/near-miss lookups.",
    note="Model written by hand (Impl follows Unmarshal incl. the discarded parsePrincipal error); v1 byte order is the host's (little endian here). External: encoding/binary.",
